@@ -120,6 +120,10 @@ XStmt(s, sid, X, callSite) ==
       [] s.k = "map"    -> [X EXCEPT !.decls = Append(@, s.decl)]
       \* .table loads a table into the current scope at expansion time; .text captures the table in force there
       [] s.k = "table"  -> [X EXCEPT !.tabs = (sid :> s.t) @@ @]
+      \* .include_ips reads the patch and evaluates its delta where the directive stands (expansion time)
+      [] s.k = "ips"    -> LET v == Eval(s.delta, sid, X.scopes, X.defs) IN
+                           IF ~v.ok THEN XUnspec(X, "patch delta over a name not defined at the directive")
+                           ELSE XNode(X, [k |-> "ips", sid |-> sid, recs |-> s.recs, delta |-> v.v])
       [] s.k = "text"   -> XNode(X, [k |-> "text", sid |-> sid, tbl |-> TableFor(sid, X.scopes, X.tabs), s |-> s.s])
       [] s.k \in {"block", "scope"} ->
             LET X1 == NewScope(X, sid, IF s.k = "scope" THEN "named" ELSE "block", IF s.k = "scope" THEN s.n ELSE "")
@@ -156,7 +160,8 @@ BusFor(prog, X) == IF X.decls # <<>> THEN X.decls ELSE IF prog.rom = "high" THEN
 Dead(P) == P.fail \/ P.unspec
 \* at / offs / rel: run address, storage offset and relocation flag seen by each node of the current pass
 PInit(X) == [run |-> -1, off |-> -1, defs |-> X.defs, fail |-> FALSE, unspec |-> X.unspec, why |-> X.why,
-             img |-> <<>>, pred |-> <<>>, reloc |-> FALSE, at |-> <<>>, at1 |-> <<>>, offs |-> <<>>, rel |-> <<>>, drift |-> FALSE]
+             img |-> <<>>, pred |-> <<>>, reloc |-> FALSE, at |-> <<>>, at1 |-> <<>>, offs |-> <<>>, rel |-> <<>>, drift |-> FALSE,
+             ips |-> <<>>]     \* ips: <<offset, byte>> pairs re-emitted from included patches, in order (C13)
 Note(P) == IF Dead(P) THEN P ELSE [P EXCEPT !.at = Append(@, P.run), !.offs = Append(@, P.off), !.rel = Append(@, P.reloc)]
 PFail(P, why) == IF P.fail \/ P.unspec THEN P ELSE [P EXCEPT !.fail = TRUE, !.why = why]
 PUnspec(P, why) == IF P.fail \/ P.unspec THEN P ELSE [P EXCEPT !.unspec = TRUE, !.why = why]
@@ -188,7 +193,7 @@ StepLabel(node, scopes, bus, P, tables) ==
     CASE node.k = "label" -> IF <<node.sid, node.n>> \in DOMAIN P.defs THEN PUnspec(P, "name redefined in one scope")
                              ELSE IF P.run < 0 THEN PUnspec(P, "label before any *=")
                              ELSE [P EXCEPT !.defs = Define(@, scopes, node.sid, node.n, P.run, 1, TRUE), !.pred = Append(@, 0)]
-      [] node.k \in {"def", "darg", "enter", "exit"} -> [P EXCEPT !.pred = Append(@, 0)]
+      [] node.k \in {"def", "darg", "enter", "exit", "ips"} -> [P EXCEPT !.pred = Append(@, 0)]
       [] node.k = "op" -> LET w == OpWidth(node, scopes, P.defs) IN
                           IF w = -1 THEN PUnspec(P, "operand width needs a name not yet visible in the label pass")
                           ELSE IF w = -2 THEN PUnspec(P, "operand without suffix negative or wider than 3 bytes")
@@ -247,9 +252,16 @@ BranchResult(bus, mn, A, T) ==
          IF d < -128 \/ d > 127 THEN [r |-> "fail", bs |-> <<>>]
          ELSE [r |-> "ok", bs |-> <<Opcode(mn, "rel8"), d % 256>>]
 
+\* C13: each record's bytes at its offset plus delta, in order; position and addresses of the program unaffected
+IpsPairs(node) == Flatten([j \in 1..Len(node.recs) |->
+                    [m \in 1..Len(node.recs[j].data) |-> <<node.recs[j].off + node.delta + m - 1, node.recs[j].data[m]>>]])
+
 StepEmit(node, i, scopes, bus, P, phaseCheck, tables) ==
     IF Dead(P) THEN P ELSE
     CASE node.k \in {"def", "darg", "enter", "exit"} -> P
+      [] node.k = "ips" -> IF \E j \in 1..Len(node.recs) : node.recs[j].off + node.delta < 0
+                           THEN PUnspec(P, "patch record moved below offset 0")
+                           ELSE [P EXCEPT !.ips = @ \o IpsPairs(node)]
       \* C02: a label is where the next byte is emitted, or the assembly fails (phaseCheck = FALSE: pinned design)
       [] node.k = "label" -> IF phaseCheck /\ P.defs[<<node.sid, node.n>>].v # P.run
                              THEN PFail(P, "label moved between the label pass and emission") ELSE P
@@ -303,18 +315,23 @@ LabelsOf(scopes, defs) == {<<p[2], defs[p].v>> : p \in {q \in DOMAIN defs : defs
 \* Result of assembling prog: [outcome, img, labels, why]; outcome in ok | fail | unspec
 Run(prog, callSite, phaseCheck) ==
     LET X == Expand(prog, callSite) IN
-    IF X.fail THEN [outcome |-> "fail", img |-> <<>>, labels |-> {}, why |-> X.why, nodes |-> <<>>, scopes |-> X.scopes,
+    IF X.fail THEN [outcome |-> "fail", img |-> <<>>, ips |-> <<>>, labels |-> {}, why |-> X.why, nodes |-> <<>>, scopes |-> X.scopes,
                     defs |-> X.defs, at1 |-> <<>>, at3 |-> <<>>, offs3 |-> <<>>, rel3 |-> <<>>, bus |-> LoROM]
     ELSE LET bus == BusFor(prog, X)
              tb == IF "tables" \in DOMAIN prog THEN prog.tables ELSE <<>>
              P1 == FoldLabel(X.nodes, 1, X.scopes, bus, PInit(X), tb)
              P2 == FoldSymbol(X.nodes, 1, X.scopes, bus, Reset(KeepTrace(P1)))
              P3 == FoldEmit(X.nodes, 1, X.scopes, bus, Reset(P2), phaseCheck, tb)
+             \* where a patch record and the program's own output meet, the statements fix no winner
+             clash == {P3.ips[j][1] : j \in 1..Len(P3.ips)} \cap {P3.img[j][1] : j \in 1..Len(P3.img)} # {}
          IN [outcome |-> IF P3.unspec THEN "unspec" ELSE IF P3.fail THEN "fail"
+                         ELSE IF P3.ips # <<>> /\ clash THEN "unspec"
                          \* sizes differed between the passes but no position-derived symbol moved: the emitted
                          \* bytes (widths by the values at emission, C01) are right, and refusing is allowed too (C02)
                          ELSE IF P3.drift /\ phaseCheck THEN "either" ELSE "ok",
-             img |-> P3.img, labels |-> LabelsOf(X.scopes, P3.defs), why |-> P3.why, nodes |-> X.nodes, scopes |-> X.scopes,
+             img |-> P3.img, ips |-> P3.ips, labels |-> LabelsOf(X.scopes, P3.defs),
+             why |-> IF ~P3.unspec /\ ~P3.fail /\ P3.ips # <<>> /\ clash THEN "included patch overlaps the program's own output" ELSE P3.why,
+             nodes |-> X.nodes, scopes |-> X.scopes,
              defs |-> P3.defs, at1 |-> P3.at1, at3 |-> P3.at, offs3 |-> P3.offs, rel3 |-> P3.rel, bus |-> bus]
 
 Spec(prog) == Run(prog, TRUE, TRUE)
